@@ -282,3 +282,22 @@ Print Assumptions C10_hist_op_respects.
 Print Assumptions C10_hist_independent_St.
 Print Assumptions C10_stack_hist_independent.
 Print Assumptions C10_ok_call_not_poisoned.
+
+(* ---------- Tie A, decision logic (tools/src2v2.py -> gen/Src2.v): readers: the chunk number only advances, reads of the compression reader ---------- *)
+From MLA Require SrcTie2b SrcTie2Events.
+Check SrcTie2b.tag2notag_eq.
+Theorem C10_tie_tag2notag_eq : ltac:(let t := type of SrcTie2b.tag2notag_eq in exact t).
+Proof. exact SrcTie2b.tag2notag_eq. Qed.
+Print Assumptions C10_tie_tag2notag_eq.
+Check SrcTie2Events.read_internal_order.
+Theorem C10_tie_read_internal_order : ltac:(let t := type of SrcTie2Events.read_internal_order in exact t).
+Proof. exact SrcTie2Events.read_internal_order. Qed.
+Print Assumptions C10_tie_read_internal_order.
+Check SrcTie2Events.EV_comp_read_shape.
+Theorem C10_tie_EV_comp_read_shape : ltac:(let t := type of SrcTie2Events.EV_comp_read_shape in exact t).
+Proof. exact SrcTie2Events.EV_comp_read_shape. Qed.
+Print Assumptions C10_tie_EV_comp_read_shape.
+Check SrcTie2Events.EV_read_internal_shape.
+Theorem C10_tie_EV_read_internal_shape : ltac:(let t := type of SrcTie2Events.EV_read_internal_shape in exact t).
+Proof. exact SrcTie2Events.EV_read_internal_shape. Qed.
+Print Assumptions C10_tie_EV_read_internal_shape.
